@@ -66,6 +66,11 @@ def run(chk, tier):
     chk.floor("R-WRITER", "stores to hwloc_obj.gp_index", n1, 3)
     n2, seen2 = oblig.writers(chk, P, units, "hwloc_obj", "userdata", UD_OWNERS)
     chk.floor("R-WRITER", "stores to hwloc_obj.userdata", n2, 1)
+    chk.rule("R-ORPHAN", "in the functions that dismantle tree objects, hwloc_free_unlinked_object(X) is reached only after each of X's four child lists, when non-empty, was handed on "
+             "(passed to a call or copied): explored per list with the list head seeded non-NULL; a NULL test alone consumes nothing")
+    import orphan
+    nor = orphan.run(chk, P, ["topology.c"])
+    chk.floor("R-ORPHAN", "release sites x child lists", nor, 12)
     chk.decided += ["compaction of targets/initiators after a refresh copies the surviving entry down, never the dropped one over it",
                     "restrict: see C08", "allow/restrict leave the topology untouched on EINVAL (no write before any EINVAL exit)",
                     "Group/Misc insertion, cpukinds registration, distances commit re-establish derived state on their success paths",
